@@ -258,7 +258,7 @@ pub fn reference_substitution(source_generics: &str, target: &str, args: &[Strin
 }
 
 fn ty_str(t: &syn::Type) -> String {
-    squash(&quote::quote!(#t).to_string())
+    crate::settings::canon_type(t)
 }
 
 pub fn check_state(st: &SubstState, ctx: &mut Ctx) {
@@ -356,10 +356,10 @@ pub fn check_state(st: &SubstState, ctx: &mut Ctx) {
         if matches!(origin, Ty::BitVec(Prim::Bool, _)) {
             continue;
         }
-        let want = squash(&ex.nested(origin, None));
+        let want = crate::settings::canon_type_str(&ex.nested(origin, None));
         match resolve_path(reg, &settings, id) {
             Ok(Ok(p)) => {
-                let got = squash(&p);
+                let got = crate::settings::canon_type_str(&p);
                 if mentions(&got) {
                     ctx.violation(
                         "C07/still-referenced/resolve",
@@ -402,10 +402,10 @@ pub fn check_state(st: &SubstState, ctx: &mut Ctx) {
         for (sf, gf) in src_fields.iter().zip(got_fields.iter()) {
             let (want, _) = ex.field(sf, None);
             let got = ty_str(&gf.ty);
-            if got != squash(&want) {
+            if got != crate::settings::canon_type_str(&want) {
                 ctx.violation(
                     format!("C07/wrong-substitution/{}", if matches!(st.use_, Some(Use::InGenericParent) | Some(Use::InGenericParent2)) { "in-generic-parent" } else { "field" }),
-                    format!("field of {}: emitted `{got}`, reference substitution gives `{}`", def.name, squash(&want)),
+                    format!("field of {}: emitted `{got}`, reference substitution gives `{}`", def.name, crate::settings::canon_type_str(&want)),
                     replay(),
                     size,
                 );
@@ -466,7 +466,7 @@ pub fn run(tier: &str, seed: u64) -> i32 {
     let mut report = Report::new("C07", tier, seed, "model_checking");
     let budget = Budget {
         max_depth: 2,
-        wall: Duration::from_secs(if tier == "thorough" { 600 } else { 45 }),
+        wall: Duration::from_secs(if tier == "thorough" { 600 } else { 150 }),
         max_states: 1_000_000,
     };
     report.add(explore(&DSubst, &budget, seed, |s, ctx| check_state(s, ctx)));
